@@ -51,6 +51,42 @@ fn opnd_from(v: &Value) -> Opnd {
     }
 }
 
+fn scale_lin(l: &mut Linear, s: f64) {
+    for t in l.terms.iter_mut() {
+        t.coefficient *= s;
+    }
+    l.constant *= s;
+}
+fn scale_quad(q: &mut Quadratic, s: f64) {
+    for v in q.values.iter_mut() {
+        *v *= s;
+    }
+    if let Some(l) = q.linear.as_mut() {
+        scale_lin(l, s);
+    }
+}
+fn scale_poly(p: &mut Polynomial, s: f64) {
+    for t in p.terms.iter_mut() {
+        t.coefficient *= s;
+    }
+}
+/// multiply every coefficient the operand's message lists by `s` (operands without listed coefficients are left alone)
+fn scale_opnd(o: &mut Opnd, s: f64) {
+    match o {
+        Opnd::Lin(l) => scale_lin(l, s),
+        Opnd::Quad(q) => scale_quad(q, s),
+        Opnd::Poly(p) => scale_poly(p, s),
+        Opnd::Func(f) => match f.function.as_mut() {
+            Some(v1::function::Function::Constant(c)) => *c *= s,
+            Some(v1::function::Function::Linear(l)) => scale_lin(l, s),
+            Some(v1::function::Function::Quadratic(q)) => scale_quad(q, s),
+            Some(v1::function::Function::Polynomial(p)) => scale_poly(p, s),
+            _ => {}
+        },
+        _ => {}
+    }
+}
+
 /// SortedIds is not re-exported by name; build it through the public From<Vec<u64>> of the iterator item type
 fn ommx_sorted(ids: Vec<u64>) -> <<&'static Polynomial as IntoIterator>::Item as First>::T {
     ids.into()
@@ -176,12 +212,29 @@ pub fn apply(ev: &Value) -> Vec<Value> {
         }
         "arith" => {
             let out = guarded(|| {
-                let a = opnd_from(&inp["a"]);
+                let mut a = opnd_from(&inp["a"]);
                 let op = inp["op"].as_str().unwrap();
                 let r = if op == "neg" {
                     crate::arith_table::unary_neg(&a)
                 } else {
-                    let b = opnd_from(&inp["b"]);
+                    let mut b = opnd_from(&inp["b"]);
+                    // rescaled replay of a product with a number: the number is divided by 2^k and every coefficient of
+                    // the other operand multiplied by 2^k.  Scaling by a power of two is exact in binary floating point,
+                    // so the product is bit for bit the one of the logged operands; the judge sees the logged operands.
+                    if let (Some(k), "mul") = (inp.get("rescale").and_then(|k| k.as_i64()), op) {
+                        let s = 2f64.powi(k as i32);
+                        match (&mut a, &mut b) {
+                            (Opnd::Num(x), o) if !matches!(o, Opnd::Num(_)) => {
+                                *x /= s;
+                                scale_opnd(o, s)
+                            }
+                            (o, Opnd::Num(x)) => {
+                                *x /= s;
+                                scale_opnd(o, s)
+                            }
+                            _ => {}
+                        }
+                    }
                     crate::arith_table::binary(op, &a, &b)
                 };
                 match r {
